@@ -4,7 +4,8 @@ import re
 from vlib import *
 import oracles
 
-FILES = ['include/urcu/static/wfcqueue.h', 'include/urcu/wfcqueue.h', 'src/wfcqueue.c']
+FILES = ['include/urcu/static/wfcqueue.h', 'include/urcu/wfcqueue.h', 'src/wfcqueue.c', 'include/urcu/static/wfqueue.h', 'src/wfqueue.c']
+WQPROGS = ['DDDD/E0E1/E2E3', 'DDD/E0/E1/E2', 'DDDDD/E0E1E2', 'DDDD/E0E1/E2']      # legacy cds_wfq
 OPROGS = ['dDdd/E0E1/E2', 'dsdn/E0E1/E2E3', 'wIew/E0/E1E2', 'ddddd/E0/E1/E2', 'nDsI/E0E1/E2', 'edIds/E0E1E2']
 PROGS = ['DDDDD/E0E1/E2E3', 'DDD/E0/E1/E2', 'DDDD/E0E1E2', 'DD/E0/E1', 'DDDDDD/E0E1/E2/E3E4']
 TRUSTED = ['Coq 8.16.1 kernel; no axioms (closed under the global context); no native_compute',
@@ -44,13 +45,14 @@ def canon_c(out):
 
 def fifo_wfcq_apply(state, op, arg):
     if op == 'enq': return state + (arg,), ('1' if state else '0')    # returns "queue was non-empty"
+    if op == 'enqv': return state + (arg,), '0'                          # legacy cds_wfq_enqueue returns nothing
     if op in ('deq', 'deqs'): return (state[1:], state[0]) if state else (state, '0')
     if op == 'deqnb': return [(state[1:], state[0]) if state else (state, '0'), (state, '-1')]     # WOULDBLOCK always tolerated here (C17 checks when it may occur)
     if op == 'splice': return (), ','.join(state)
     if op == 'splicenb': return [((), ','.join(state)), (state, 'WB')]
     if op == 'iter': return state, ','.join(state)
     if op == 'empty': return state, ('0' if state else '1')
-OPS = ('enq', 'deq', 'deqs', 'deqnb', 'splice', 'splicenb', 'iter', 'empty')
+OPS = ('enq', 'enqv', 'deq', 'deqs', 'deqnb', 'splice', 'splicenb', 'iter', 'empty')
 def history(raw):
     open_ = {}; out = []; chain = {}; i = 0
     for l in raw.splitlines():
@@ -84,7 +86,7 @@ def oracle(p, s, cl, raw):
         if h[1] in ('deq', 'deqs', 'deqnb') and h[3] not in (None, '0', '-1'): deq.append(h[3])
         if h[1] in ('splice', 'splicenb') and h[3] not in (None, 'WB', ''): deq += h[3].split(',')
     if len(set(deq)) != len(deq): return 'a node was dequeued twice: %s' % deq
-    enq_all = [h[2] for h in hist if h[1] == 'enq']
+    enq_all = [h[2] for h in hist if h[1] in ('enq', 'enqv')]
     if any(d not in enq_all for d in deq): return 'dequeue returned a node that was never enqueued'
     m = re.search(r'^- drain(.*)$', raw, flags=re.M)
     if m and all(h[5] is not None for h in hist):
@@ -135,6 +137,23 @@ def run(ctx):
             prog = ctx.rng.choice(OPROGS); th = [str(i) for i in range(prog.count('/') + 1)]
             ocases.append((prog, bursty(ctx.rng, th, flush=ctx.rng.choice([0.0, 0.05, 0.3]))))
         corr_schedules(ctx, 'wfcqueue FIFO (non-blocking dequeue, with-state, splice, iteration, empty)', impl, None, ocases, canon_c, oracle=oracle, nontrivial=nontrivial, tail=tail, scenario='scen_wfcq (oracle only)')
+    # legacy cds_wfq (static/wfqueue.h): FIFO oracle; standard and plain-store-instrumented builds
+    for nm, pl in (('scen_wfq', False), ('scen_wfq_plain', True)):
+        wq = build_scenario(ctx, nm, 'scen_wfq.c', plain=pl)
+        if not wq: continue
+        wcases = []
+        for prog in WQPROGS[:3 if ctx.quick() else len(WQPROGS)]:
+            th = [str(i) for i in range(prog.count('/') + 1)]
+            for v in th[1:]:
+                for point in range(1, 8):
+                    for fm in (0, 1): wcases.append((prog, parking(th, point, 1, v, fm) + (chr(ord('a') + int(v)) if fm else '')))
+                    # the dummy node has been through the queue once (one enqueue, dequeue, dequeue-on-empty), then an enqueue is frozen at `point` while the dequeuer runs
+                    wcases.append((prog, '>1' + 'b' * 4 + '>0>0' + 'a' * 4 + v * point + '0a' * 30))
+            for point in range(1, 30, 2): wcases.append((prog, parking(th, point, 1, '0', 1)))
+        while len(wcases) < (150 if ctx.quick() else 3000):
+            prog = ctx.rng.choice(WQPROGS); th = [str(i) for i in range(prog.count('/') + 1)]
+            wcases.append((prog, bursty(ctx.rng, th, flush=ctx.rng.choice([0.0, 0.05, 0.3]))))
+        corr_schedules(ctx, 'legacy wfqueue FIFO' + (' with instrumented plain stores' if pl else ''), wq, None, wcases, canon_c, oracle=oracle, nontrivial=nontrivial, tail=tail, scenario=nm + ' (oracle only)')
     # the same scenario with plain stores (node initialisation) as scheduling points and buffered stores: oracle only
     pimpl = build_scenario(ctx, 'scen_wfcq_plain', 'scen_wfcq.c', plain=True)
     if pimpl and impl:
